@@ -97,23 +97,58 @@ def r2(ctx):
             raise AnalysisError(f"eigenvalue piece in an unrecognised form: {str(v)[:120]}")
 
 
+def _table_fn(f):
+    return f.qualname.endswith(("_upper_triangle_indices", "_full_matrix_size")) or "triu_indices" in f.name
+
+
+def scatter_site(ana):
+    """The function that scatters the compressed vector into a square zero matrix: the reference helper, or reinflate_matrix
+    itself when the helper was folded into it."""
+    if ana.prog.has_func("matrix_compression._uncompress_upper_triangle") or \
+            "fast_ticc.matrix_compression._uncompress_upper_triangle" in getattr(ana.prog, "renamed", {}):
+        return ana.func("matrix_compression._uncompress_upper_triangle")
+    return ana.func("matrix_compression.reinflate_matrix")
+
+
 def reinflate_symmetry(ctx):
     ana = ctx.ana
-    fi = ana.func("matrix_compression._upper_to_full")
-    b = ana.builder(fi, no_inline=ana.known)
+    re_ = ana.func("matrix_compression.reinflate_matrix")
+    mirror_in_helper = ana.prog.has_func("matrix_compression._upper_to_full") or \
+        "fast_ticc.matrix_compression._upper_to_full" in getattr(ana.prog, "renamed", {})
+    fi = ana.func("matrix_compression._upper_to_full") if mirror_in_helper else re_
+    b = ana.builder(fi, no_inline=(ana.known if mirror_in_helper else _table_fn))
     rt = b.return_term()
-    U = Sym(fi.params[0])
+    syms = sorted({x.name for x in tm.subterms(rt) if isinstance(x, Sym)})
+    if len(syms) != 1:
+        raise AnalysisError(f"mirror step is not a function of one matrix: {str(rt)[:100]}")
+    U = Sym(syms[0])
     want = tm.add(tm.add(U, tm.transpose(U)), tm.neg(App("numpy.diag", (App("diagonal", (U,)),))))
     alt = tm.add(tm.add(U, tm.transpose(U)), tm.neg(App("numpy.diag", (App("numpy.diag", (U,)),))))
     ctx.check(rt in (want, alt), fi, "full = U + U^T - diag(diagonal(U))", role="mirror", expected=str(want), found=str(rt))
     ctx.check(tm.transpose(rt) == rt, fi, "the reinflated matrix is invariant under transposition (exactly symmetric)", role="mirror:symmetric",
               expected="T(full) == full", found=str(tm.transpose(rt)))
-    re_ = ana.func("matrix_compression.reinflate_matrix")
-    br = ana.builder(re_, no_inline=ana.known)
-    r = br.return_term()
-    ok = isinstance(r, App) and r.fn == fi.qualname and len(r.args) == 1 and isinstance(r.args[0], App) \
-        and r.args[0].fn.endswith("_uncompress_upper_triangle") and r.args[0].args == (Sym(re_.params[0]),)
-    ctx.check(ok, re_, "reinflate_matrix = mirror(scatter(vector))", role="mirror:compose", expected="_upper_to_full(_uncompress_upper_triangle(v))", found=str(r)[:120])
+    if mirror_in_helper:
+        ctx.check(U == Sym(fi.params[0]), fi, "the mirrored matrix is the helper's argument", role="mirror:operand", found=str(U))
+        br = ana.builder(re_, no_inline=ana.known)
+        r = br.return_term()
+        sc = scatter_site(ana)
+        ok = isinstance(r, App) and r.fn == fi.qualname and len(r.args) == 1 and (
+            (isinstance(r.args[0], App) and r.args[0].fn == sc.qualname and r.args[0].args == (Sym(re_.params[0]),)) if sc is not re_
+            else isinstance(r.args[0], Sym))
+        ctx.check(ok, re_, "reinflate_matrix = mirror(scatter(vector))", role="mirror:compose", expected="_upper_to_full(_uncompress_upper_triangle(v))", found=str(r)[:120])
+    else:
+        # folded form: the mirrored matrix must be the scatter target of the same function (or the scatter helper's result)
+        sc = scatter_site(ana)
+        if sc is re_:
+            tgt = [s_.base_name for s_ in b.stores() if s_.idx is not None]
+            ctx.check(tgt == [U.name], re_, "reinflate_matrix mirrors the matrix it scattered the vector into", role="mirror:compose",
+                      expected=f"{U.name} is the scatter target", found=", ".join(map(str, tgt)))
+        else:
+            b2 = ana.builder(re_, no_inline=lambda f: _table_fn(f) or f is sc)
+            r2 = b2.return_term()
+            Ux = App(sc.qualname, (Sym(re_.params[0]),))
+            want2 = tm.add(tm.add(Ux, tm.transpose(Ux)), tm.neg(App("numpy.diag", (App("diagonal", (Ux,)),))))
+            ctx.check(r2 == want2, re_, "reinflate_matrix = mirror(scatter(vector))", role="mirror:compose", expected=str(want2)[:120], found=str(r2)[:120])
 
 
 @rule("C03", "R3", "TERM", "reinflation of the compressed upper triangle is exactly symmetric", floor=3)
